@@ -12,3 +12,5 @@ PAIRS = [
 import arena_common, os_common
 A = arena_common.pairs(); O = os_common.pairs()
 PAIRS += [A["arena_free"], A["arena_purge"], O["os_purge_ex"]]
+import page_common as _pc
+PAIRS += _pc.page_free_pairs()      # an empty page is freed at once or kept for a bounded number of cycles inside the scanned bin range; freeing unlinks, detaches and hands it to the segment layer once
